@@ -46,43 +46,36 @@ theorem election_no_trace (S : Spec El P) (cfg : Cfg) (pf : Nat → Chain) (hlen
   have hf := onlySaw_reach S cfg (hn.inv hlen).wf
   rw [election_eq_spec S cfg pf hlen hn, election_eq_spec S cfg pf hlen hf, onlySaw_chain]
 
-/-- Epoch points (`GetEpochPoints().GetPoint(T)`, what `EpochStats` reports and the pillar contract pays from): the
-    answer is the one computed from scratch on the current chain for every epoch that is FINISHED on the current chain,
-    and for an unfinished one whenever no stored point carries the current end hash. -/
+/-- Epoch points (`GetEpochPoints().GetPoint(T)`, what `EpochStats` reports and the pillar contract pays from): in
+    every reachable state, for every epoch — finished, running or not started — the answer is the one computed from
+    scratch on the current chain. -/
 theorem epoch_points_eq_spec (S : Spec El P) (cfg : Cfg) (pf : Nat → Chain) (hlen : 0 < cfg.len) {n : Node El P}
-    (hn : Reach S cfg pf n) (T : Nat)
-    (h : finished (cfg.len * cfg.mult) n.chain T = true ∨
-         ∀ p, n.caches.ec T ≠ some (headHash cfg.g (endCut (cfg.len * cfg.mult) n.chain T), p)) :
+    (hn : Reach S cfg pf n) (T : Nat) :
     (epochC S cfg n.chain n.caches T).1 = specEpoch S cfg n.chain T :=
-  (epochC_ok S cfg hlen (hn.inv hlen).wf (hn.inv hlen).c T).2 h
+  (epochC_ok S cfg hlen (hn.inv hlen).wf (hn.inv hlen).c T).2
 
-/-- `epoch_points_no_trace`: for every epoch that is finished on the current chain (every epoch a reward is ever paid
-    for) or has not started, the answer is that of the node that only ever saw the current chain. -/
+/-- `epoch_points_no_trace`: … which is the answer of the node that only ever saw the current chain. -/
 theorem epoch_points_no_trace (S : Spec El P) (cfg : Cfg) (pf : Nat → Chain) (hlen : 0 < cfg.len) {n : Node El P}
-    (hn : Reach S cfg pf n) (T : Nat)
-    (h : finished (cfg.len * cfg.mult) n.chain T = true ∨ started (cfg.len * cfg.mult) n.chain T = false) :
+    (hn : Reach S cfg pf n) (T : Nat) :
     (epochC S cfg n.chain n.caches T).1 =
       (epochC S cfg (onlySaw S cfg n.chain).chain (onlySaw S cfg n.chain).caches T).1 := by
   have hf := onlySaw_reach S cfg (hn.inv hlen).wf
-  rw [onlySaw_chain]
-  cases h with
-  | inl hfin =>
-    rw [epoch_points_eq_spec S cfg pf hlen hn T (Or.inl hfin)]
-    have := epoch_points_eq_spec S cfg pf hlen hf T (Or.inl (by rw [onlySaw_chain]; exact hfin))
-    rw [onlySaw_chain] at this
-    exact this.symm
-  | inr hns => simp [epochC, hns]
+  rw [epoch_points_eq_spec S cfg pf hlen hn, epoch_points_eq_spec S cfg pf hlen hf, onlySaw_chain]
 
-/-- What is left of the abandoned branch, in the real code as in the model: an epoch point is stored once its epoch is
-    finished, with ALL its periods merged in; a rollback to exactly the last momentum of that epoch makes the epoch
-    unfinished again while the stored end hash still matches, so until the next momentum arrives the stored point is
-    served — it counts the periods after the frontier, which a node that only saw the current chain does not.
+/-- The "is the epoch still finished" test of the epoch reader is necessary (finding FX1, repaired in b4e9eef): an epoch
+    point is stored once its epoch is finished, with ALL its periods merged in; a rollback to exactly the last momentum
+    of that epoch makes the epoch unfinished again while the stored end hash still matches, and the reader that looks at
+    the end hash alone (`epochCServeUnfinished`, the code before the repair; up to this state every call of either reader
+    found an empty slot) serves the stored point — it counts the periods after the frontier, which a node that only saw
+    the current chain does not. The repaired reader answers like that node and drops the stored point.
     (Spec: a period point = the number of its momentums, a compound point = the number of points merged.) -/
-theorem epoch_unfinished_after_rollback_keeps_trace :
+theorem epoch_served_while_unfinished_keeps_trace :
     let S : Spec Unit Nat := ⟨fun _ => (), fun _ ms _ => ms.length, fun ps => ps.length⟩
     let cfg : Cfg := ⟨0, 10, 2⟩
     let n := [Op.insert ⟨1, 3, 1⟩, Op.insert ⟨2, 22, 1⟩, Op.rollback 1].foldl (step S cfg) Node.fresh
-    n.chain = [⟨1, 3, 1⟩] ∧ (epochC S cfg n.chain n.caches 0).1 = some 2 ∧ specEpoch S cfg n.chain 0 = some 1 ∧
+    n.chain = [⟨1, 3, 1⟩] ∧ n.caches.ec 0 = some (1, 2) ∧ finished (10 * 2) n.chain 0 = false ∧
+    (epochCServeUnfinished S cfg n.chain n.caches 0).1 = some 2 ∧ specEpoch S cfg n.chain 0 = some 1 ∧
+    (epochC S cfg n.chain n.caches 0).1 = some 1 ∧ (epochC S cfg n.chain n.caches 0).2.ec 0 = none ∧
     (epochC S cfg n.chain (onlySaw S cfg n.chain).caches 0).1 = some 1 := by decide
 
 /-! ### the end-hash comparison is necessary -/
@@ -130,13 +123,14 @@ theorem points_without_endhash_check_stale :
 
 /-- consensus/points.go: in both `GetPoint` readers the end block is the tick's end block on the current chain and the
     stored point is the one stored under the tick; the only returns that are not error returns are `nil, nil` for a tick
-    that has not started, the STORED point under `dbPoint != nil && !(dbPoint.EndHash != endBlock.Hash)` — nowhere else —
-    and the freshly generated point; a stored point with another end hash is deleted; a generated point is stored iff
-    the tick is finished. This is `periodC` / `epochC`. -/
+    that has not started, the STORED point — in the period reader under `dbPoint != nil && !(dbPoint.EndHash !=
+    endBlock.Hash)`, in the compound reader under `dbPoint != nil && !(dbPoint.EndHash != endBlock.Hash ||
+    !compound.IsFinished(tick))`, nowhere else — and the freshly generated point; a stored point that fails the test is
+    deleted; a generated point is stored iff the tick is finished. This is `periodC` / `epochC`. -/
 theorem getpoint_compares_end_hash :
     Gen.GetPointReturns.filter (fun r => r.2.1 != "nil, err") =
       [("compoundPoints", "nil, nil", "!compound.HasStarted(tick)"),
-       ("compoundPoints", "dbPoint, nil", "dbPoint != nil && !(dbPoint.EndHash != endBlock.Hash)"),
+       ("compoundPoints", "dbPoint, nil", "dbPoint != nil && !(dbPoint.EndHash != endBlock.Hash || !compound.IsFinished(tick))"),
        ("compoundPoints", "point, nil", ""),
        ("periodPoints", "nil, nil", "!period.HasStarted(tick)"),
        ("periodPoints", "dbPoint, nil", "dbPoint != nil && !(dbPoint.EndHash != endBlock.Hash)"),
@@ -150,17 +144,21 @@ theorem getpoint_compares_end_hash :
        ("periodPoints", "point := period.generatePointFromChain(tick)", "")] ∧
     Gen.GetPointDbCalls =
       [("compoundPoints", "compound.db.GetPointByHeight(compound.prefix, tick)", ""),
-       ("compoundPoints", "compound.db.DeletePointByHeight(compound.prefix, tick)", "dbPoint != nil && dbPoint.EndHash != endBlock.Hash"),
+       ("compoundPoints", "compound.db.DeletePointByHeight(compound.prefix, tick)", "dbPoint != nil && (dbPoint.EndHash != endBlock.Hash || !compound.IsFinished(tick))"),
        ("compoundPoints", "compound.db.StorePointByHeight(compound.prefix, tick, point)", "compound.IsFinished(tick)"),
        ("periodPoints", "period.db.GetPointByHeight(storage.PrefixPeriodPoint, tick)", ""),
        ("periodPoints", "period.db.DeletePointByHeight(storage.PrefixPeriodPoint, tick)", "dbPoint != nil && dbPoint.EndHash != endBlock.Hash"),
        ("periodPoints", "period.db.StorePointByHeight(storage.PrefixPeriodPoint, tick, point)", "period.IsFinished(tick)")] := by
   decide
 
-/-- every return of a stored point, whatever else the readers do, sits under the end-hash comparison -/
+/-- every return of a stored point, whatever else the readers do, sits under the end-hash comparison — and, in the
+    compound reader, under the test that the epoch is finished -/
 theorem stored_point_only_served_under_end_hash_comparison :
     ∀ r ∈ Gen.GetPointReturns, r.2.1 ∉ ["nil, err", "nil, nil", "point, nil"] →
-      r.2.1 = "dbPoint, nil" ∧ r.2.2 = "dbPoint != nil && !(dbPoint.EndHash != endBlock.Hash)" := by decide
+      r.2.1 = "dbPoint, nil" ∧
+      r.2.2 = (if r.1 = "compoundPoints"
+               then "dbPoint != nil && !(dbPoint.EndHash != endBlock.Hash || !compound.IsFinished(tick))"
+               else "dbPoint != nil && !(dbPoint.EndHash != endBlock.Hash)") := by decide
 
 /-- consensus/election.go `generateProducers`: looked up and stored under the hash of the proof momentum (`electC`) -/
 theorem election_cache_keyed_by_proof_hash :
